@@ -67,7 +67,8 @@ TECHNIQUE = ("recording unsafe callables with an unmarked control twin over a co
              "twin oracle over names resolved by engine helpers (i18n `_` alias, trans tag) and shadowed "
              "builtin/special names in environments with extensions loaded")
 RULE = ("case = (obtain form x alias wrapper x call site x argument form x callable kind x mark "
-        "x environment kind x sync/async); base coverage enumerates every (site, kind, mark) and "
+        "x environment kind x sync/async x extension set [do only / i18n+do+loopcontrols+debug with "
+        "gettext callables absent, old-style, new-style]); base coverage enumerates every (site, kind, mark) and "
         "every (obtain, wrapper, mark) once, the rest is seeded sampling of the product; a case is "
         "counted as distinct and non-trivial only when the control twin (same construction, no "
         "mark) is actually invoked by the template; histories = (callable kind x environment kind x "
@@ -132,7 +133,8 @@ FLOORS = {
                            "helper_engine_resolved_cases": 120, "helper_alias_cases": 60,
                            "helper_trans_cases": 60, "helper_shadowed_name_cases": 450,
                            "helper_async_cases": 170, "helper_i18n:none": 190,
-                           "helper_i18n:null-old": 190, "helper_i18n:null-new": 190}},
+                           "helper_i18n:null-old": 190, "helper_i18n:null-new": 190,
+                           "extension_env_cases": 1000}},
     "thorough": {"evaluations": 60000, "distinct": 30000,
                  "counters": {"twin_invocations": 30000, "marked_renders": 30000,
                               "security_errors": 30000, "async_cases": 8000,
@@ -150,7 +152,8 @@ FLOORS = {
                               "helper_engine_resolved_cases": 1500, "helper_alias_cases": 700,
                               "helper_trans_cases": 800, "helper_shadowed_name_cases": 4500,
                               "helper_async_cases": 1800, "helper_i18n:none": 2000,
-                              "helper_i18n:null-old": 2000, "helper_i18n:null-new": 2000}},
+                              "helper_i18n:null-old": 2000, "helper_i18n:null-new": 2000,
+                              "extension_env_cases": 20000}},
 }
 
 # ------------------------------------------------------------------ grammar
